@@ -575,6 +575,16 @@ func (c12) Exec(r *kit.Run) {
 						if !m.cancelled && !m.ended && got != "nil" {
 							r.Fail("answer-mismatch", "Err-after-Close-of-healthy-query", "op %d: Err on query %d (%s), closed before its end without error or cancel, gave %s", n, i, sc.Queries[i].Text, got)
 						}
+						if m.ended {
+							// a query that had ended before it was closed keeps its terminating error
+							ok := false
+							for _, w := range strings.Split(m.endErr, "|") {
+								ok = ok || got == w
+							}
+							if !ok {
+								r.Fail("answer-mismatch", "Err-differs:closed-after-the-end", "op %d: Err on query %d (%s), which had ended with %s before it was closed, gave %s", n, i, sc.Queries[i].Text, m.endErr, got)
+							}
+						}
 						return
 					}
 					want := "nil"
